@@ -114,6 +114,29 @@ func handTargets() []target {
 			add(id+"/fold", fmt.Sprintf("(foldl (lambda (acc k) (concat 'string acc (to-string k))) \"\" (keys %s))", m))
 		}
 	}
+	// keys that differ only in KIND: a keyword and a string / symbol of the same name are different entries whose
+	// order must still be fixed (keys that compare "equal" under some shortcut fall back to Go map order)
+	for _, n := range []int{1, 2, 4, 6} {
+		names := []string{"id", "kind", "width", "a", "zz", "k07"}[:n]
+		var sb, sb2 strings.Builder
+		sb.WriteString("(sorted-map")
+		sb2.WriteString("(sorted-map")
+		for i, nm := range names {
+			fmt.Fprintf(&sb, " :%s %d \"%s\" %d", nm, i, nm, i+10)
+			fmt.Fprintf(&sb2, " '%s %d :%s %d", nm, i+10, nm, i)
+		}
+		sb.WriteString(")")
+		sb2.WriteString(")")
+		m, m2 := sb.String(), sb2.String()
+		id := fmt.Sprintf("mapkinds%d", n)
+		add(id+"/print", m)
+		add(id+"/print-symbols-first", m2)
+		add(id+"/keys", fmt.Sprintf("(keys %s)", m))
+		add(id+"/json", fmt.Sprintf("(json:dump-string %s)", m))
+		add(id+"/equal", fmt.Sprintf("(list (equal? %s %s) (equal? %s %s))", m, m2, m2, m))
+		add(id+"/format", fmt.Sprintf("(format-string \"{}\" (list %s %s))", m, m2))
+		add(id+"/assoc-later", fmt.Sprintf("(let ([mm %s]) (assoc! mm \"late\" 1) (assoc! mm :late 2) (assoc! mm 'late2 3) (assoc! mm :late2 4) (list mm (keys mm)))", m))
+	}
 	// closures with captured bindings
 	for _, n := range []int{1, 3, 5, 8} {
 		var binds, uses []string
